@@ -485,8 +485,9 @@ class Engine:
             md.kind = 'unsupported:' + md.consumer
         return md
 
-    def model_loop(self, entry):
-        """`let mut best = None; for x in <pipeline> { <guards>; best = .. } best`"""
+    def model_loop(self, entry, args=None):
+        """`let mut best = None; for x in <pipeline> { <guards>; best = .. } best`; `args` = values of the
+        function's parameters when it is a private helper called by the resolver (generic `best_by_key(iter, key)`)"""
         nxt = [c for c in entry.calls if not c.indirect and c.decl == IT + 'next']
         if len(nxt) != 1 or nxt[0].target is None:
             return None
@@ -502,10 +503,11 @@ class Engine:
         if entry.partial_defs(acc) or any(u[3] == 'refmut' for u in entry.uses_of(acc)):
             md.problems.append('the accumulator is modified in place')
         S = OpaqueSlicer(self.prog, {(entry.path, acc): ACC})
-        itv = S.operand(entry, nxt[0].args[0])
+        itv = self.sub(S.operand(entry, nxt[0].args[0]), args)
         pl = self.pipeline(itv)
         elem = ('unwrap', S._call_value(entry, nxt[0], set(), 0))
-        m = {'__repl__': [(canon(elem), ITEM)]}
+        m = dict(args or {})
+        m['__repl__'] = [(canon(elem), ITEM)]
         if pl is None:
             md.problems.append('iterated expression not understood: ' + vstr(itv)[:100])
         else:
@@ -570,6 +572,20 @@ def select_model(prog, sl, entry):
         md = eng.model_adapter(entry)
         if md is None:
             md = eng.model_loop(entry)
+        # the resolver only hands its pipeline (and key) to a private helper that loops: the helper's loop, with the
+        # call's arguments substituted for its parameters
+        v, args = strip(sl.local(entry, 0)), None
+        for _ in range(4):
+            if md is not None or v[0] != 'call':
+                break
+            g = prog.fns.get(v[1])
+            if g is None or g.kind == 'Closure' or g.impl_trait or g.vis == 'pub':
+                break
+            args = {(g.path, i): eng.sub(a, args) for i, a in enumerate(v[2]) if i < g.argc}
+            md = eng.model_loop(g, args)
+            if md is not None:
+                md.fns.append(g)
+            v = strip(sl.local(g, 0))
         return md
     except Giveup as e:
         md = Model('unknown')
